@@ -26,6 +26,8 @@ def main():
             if r[2] in ("MISSED", "FALSE-ALARM", "analysis-error"):
                 bad += 1
                 print(r)
+            elif r[3].startswith("analysis-error (accepted"):
+                print("accepted:", r[0], r[3][:160])
     print(f"{len(ovs)} refactorings x 20 checks: {bad} unexpected")
     return 1 if bad else 0
 
